@@ -47,7 +47,20 @@ def exec_job(job):
     try:
         ind = job.get("indent", "  ")
         body = "\n".join(ind + s for s in job["lines"])
-        if cls == "Acl":
+        if job.get("via") == "config" and cls in ("Acl", "AddrGroup"):
+            # the same section entered in two chunks of a configuration (header repeated, another section in between),
+            # read by the config-level function: every body line of both chunks is accounted for, in order
+            import cisco_acl
+            k = job["split"] % (len(job["lines"]) + 1)
+            chunk = lambda ls: [job["header"]] + [ind + x for x in ls]      # noqa
+            text = "\n".join(chunk(job["lines"][:k]) + ["hostname R1", "interface Vlan1", " no shutdown"] + chunk(job["lines"][k:])) + "\n"
+            got = cisco_acl.acls(text, platform=plat) if cls == "Acl" else cisco_acl.addrgroups(text, platform=plat)
+            if len(got) != 1:
+                raise LookupError(f"{len(got)} objects")
+            o = got[0]
+            e["header_ok"] = o.name == job["name"]
+            e["items"] = [lex.lex(x.line) for x in (aclhist.leaves_of(o) if cls == "Acl" else o.items)]
+        elif cls == "Acl":
             o = Acl(job["header"] + "\n" + body, platform=plat)
             e["header_ok"] = o.name == job["name"]
             e["items"] = [lex.lex(x.line) for x in aclhist.leaves_of(o)]
@@ -121,7 +134,11 @@ def mk_job(rng, tid, kinds, origin):
         header = (f"object-group ip address {name}" if plat == "nxos" else f"object-group network {name}")
     else:
         header = f"ip access-list {name}" if plat == "nxos" else f"ip access-list extended {name}"
-    return dict(tid=tid, cls=cls, plat=plat, header=header, name=name, lines=lines, indent=rng.choice([" ", "  ", "    "]), origin=origin)
+    job = dict(tid=tid, cls=cls, plat=plat, header=header, name=name, lines=lines, indent=rng.choice([" ", "  ", "    "]), origin=origin)
+    # (the config-level readers are stricter about junk than the classes; only lists of valid lines go this way)
+    if cls in ("Acl", "AddrGroup") and lines and all(k == "valid" for k in kinds) and rng.random() < 0.4 and "" not in lines:
+        job.update(via="config", split=rng.randint(0, 12), origin=origin + "-config-two-chunks")
+    return job
 
 
 def run(tier, seed):
